@@ -1,6 +1,8 @@
 package px
 
 import (
+	"bytes"
+	"encoding/gob"
 	"encoding/json"
 	"fmt"
 	"os"
@@ -47,16 +49,18 @@ func Observe(q *DriverReq) string {
 
 // DriverMain - `vcheck -driver <file>`: observe in a separate process.
 func DriverMain(path string) int {
-	b, err := os.ReadFile(path)
+	f, err := os.Open(path)
 	if err != nil {
 		fmt.Fprintln(os.Stderr, err)
 		return 3
 	}
 	var q DriverReq
-	if err := json.Unmarshal(b, &q); err != nil {
+	// gob, not JSON: option names and values may hold bytes that are not valid UTF-8
+	if err := gob.NewDecoder(f).Decode(&q); err != nil {
 		fmt.Fprintln(os.Stderr, err)
 		return 3
 	}
+	f.Close()
 	if q.Kind == "comp-exit" {
 		// the real exit path: the library calls os.Exit itself
 		b := Build(q.Prog)
@@ -153,6 +157,10 @@ func init() {
 			if len(cmds) > 0 {
 				add("missing-required@dispatch", &DriverReq{Prog: p, Kind: "parse", Argv: []string{cmds[0]}, Dispatch: true})
 			}
+			// (b2) help <topic> for every command (names share prefixes: c, co, cmd, clone ...)
+			for _, c := range cmds {
+				add("help-topic", &DriverReq{Prog: p, Kind: "parse", Argv: []string{"help", c}, Dispatch: true})
+			}
 			// (c) several unknown options
 			add("unknown-options", &DriverReq{Prog: p, Kind: "parse", Argv: []string{"--zzb", "--zza=1", "-zc", "pos", "--zzd"}, Dispatch: true})
 			// (d) ambiguous prefixes
@@ -216,8 +224,7 @@ func init() {
 						continue
 					}
 					f := fmt.Sprintf("%s/c20-%d-%d.json", work, idx, qi)
-					b, _ := json.Marshal(q)
-					os.WriteFile(f, b, 0o644)
+					WriteDriverReq(f, q)
 					first := Observe(q)
 					for k := 0; k < 3; k++ {
 						out, err := exec.Command(self, "-driver", f).Output()
@@ -268,4 +275,13 @@ func firstDiff(a, b string) string {
 		hiB = len(b)
 	}
 	return fmt.Sprintf("...%s... vs ...%s...", a[lo:hiA], b[lo:hiB])
+}
+
+// WriteDriverReq - request file for `vcheck -driver`.
+func WriteDriverReq(path string, q *DriverReq) error {
+	var buf bytes.Buffer
+	if err := gob.NewEncoder(&buf).Encode(q); err != nil {
+		return err
+	}
+	return os.WriteFile(path, buf.Bytes(), 0o644)
 }
